@@ -254,3 +254,15 @@ func verifStdClone(b []byte) ([]byte, bool) {
 //@   ensures c: len(result0) == 4 && os2ip(result0) == old(os2ip(b)) && os2ip(b) == 0
 //@   ensures e: result1 == (old(os2ip(b)) == 0)
 //@   modifies b
+
+func verifStdBits(x uint64) (int, int, int, int, uint64, uint64) {
+	return bits.Len64(x), bits.LeadingZeros64(x), bits.TrailingZeros64(x), bits.OnesCount64(x), bits.ReverseBytes64(x), bits.RotateLeft64(x, 13)
+}
+
+//@ func verifStdBits
+//@   mode bv
+//@   ensures len: result0 + result1 == 64 && (x == 0) == (result0 == 0) && imp(x != 0, x >> (result0 - 1) == 1)
+//@   ensures tz: (x == 0) == (result2 == 64) && imp(x != 0, (x >> result2) & 1 == 1 && x & ((1 << result2) - 1) == 0)
+//@   ensures pop: result3 <= 64 && (x == 0) == (result3 == 0) && imp(x == 0xffffffffffffffff, result3 == 64)
+//@   ensures rev: result4 & 0xff == x >> 56 && result4 >> 56 == x & 0xff
+//@   ensures rot: result5 & 0x1fff == x >> 51 && result5 >> 13 == x & 0x7ffffffffffff
